@@ -1,7 +1,7 @@
 #!/bin/bash
 # usage: trymut.sh <patch.diff> <prop> [<prop>...]
 # applies the patch in the scratch worktree, runs the named checks against it (evidence to a scratch dir), reverts.
-wt=/tmp/mutwt; patch=$1; shift 1
+wt=${WT:-/tmp/mutwt}; patch=$1; shift 1
 scratch=$(mktemp -d /tmp/mutverif.XXXX)
 cp /verif/known_findings.json $scratch/
 git -C $wt checkout -q -- . && git -C $wt apply $patch || { echo "APPLY FAILED"; exit 3; }
